@@ -198,11 +198,13 @@ class _Builder:
 
     def conditional(self, depth):
         rng = self.rng
-        if depth <= 0 or rng.random() < 0.35 or not self.fields_pool:
+        if depth <= 0 or rng.random() < 0.35 or not self.fields_pool or self.p.n_returns >= self.opts.get("max_returns", 16):
             return self.return_stmt()
         toks = ["if"] + self.pred(2) + ["{"] + self.conditional(depth - 1) + ["}"]
         n_elif = rng.choice([0, 0, 1, 1, 2, 3, 4])
         for _ in range(n_elif):
+            if self.p.n_returns >= self.opts.get("max_returns", 16):
+                break
             toks += ["else if"] + self.pred(2) + ["{"] + self.conditional(depth - 1) + ["}"]
         if rng.random() < 0.65:
             toks += ["else", "{"] + self.conditional(depth - 1) + ["}"]
